@@ -189,10 +189,12 @@ def body(ctx, c):
     if dead.any():
         rng = np.random.Generator(np.random.PCG64(c["custom_seed"] + 1))
         Z3 = Z.copy()
-        Z3[dead] = Z3[dead] * 10.0 ** rng.uniform(-1, 1, int(dead.sum()))
+        # powers of two: the phase stays bit-identical (an ulp of phase noise on constant-phase data is amplified to 1e-5 by
+        # the robust iterations of LOWESS, which has nothing to do with the modulus of these points)
+        Z3[dead] = Z3[dead] * 2.0 ** rng.choice([-3, -2, -1, 1, 2, 3], int(dead.sum()))
         r3 = run(f, Z3, kw)
         dev = float(np.max(np.abs(np.abs(np.asarray(r3.impedances)) / mod - 1)))
-        ctx.check(dev <= 1e-9, "offset-uses-weighted-points-only", c, f"changing |Z| at {int(dead.sum())} points outside the window / with zero weight changes the reconstruction by {dev:.3e}")
+        ctx.check(dev <= 1e-7, "offset-uses-weighted-points-only", c, f"changing |Z| at {int(dead.sum())} points outside the window / with zero weight changes the reconstruction by {dev:.3e}")
     # a second spectrum in the same process: same end points and length, different interior points
     f2 = grid_of(c, c["warp"])
     if not np.array_equal(f2, f):
@@ -203,10 +205,10 @@ def body(ctx, c):
                 ra = run(f2, Zb, kw2)
                 rng = np.random.Generator(np.random.PCG64(c["custom_seed"] + 2))
                 Zc = Zb.copy()
-                Zc[~live2] = Zc[~live2] * 10.0 ** rng.uniform(-1, 1, int((~live2).sum()))
+                Zc[~live2] = Zc[~live2] * 2.0 ** rng.choice([-3, -2, -1, 1, 2, 3], int((~live2).sum()))
                 rb = run(f2, Zc, kw2)
                 dev = float(np.max(np.abs(np.abs(np.asarray(rb.impedances)) / np.abs(np.asarray(ra.impedances)) - 1)))
-                ctx.check(dev <= 1e-9, "offset-uses-weighted-points-only", c, f"second grid (same end points and length): changing |Z| outside the window changes the reconstruction by {dev:.3e}")
+                ctx.check(dev <= 1e-7, "offset-uses-weighted-points-only", c, f"second grid (same end points and length): changing |Z| outside the window changes the reconstruction by {dev:.3e}")
                 if c["kind"] != "ladder":
                     e2 = float(np.max(np.abs(np.abs(np.asarray(rb.impedances)) / np.abs(Zb) - 1)))
                     ctx.check(e2 <= 5e-4, "constant-phase-exact", c, f"second grid with |Z| perturbed outside the window: modulus off by {e2:.3e}")
